@@ -76,6 +76,32 @@ func (p *Prog) VerifyFunc(c *Contract) (res *FuncResult) {
 		collectHeld(rq.E, env, fr.heldIn)
 	}
 	fr.run("true", vc.root)
+	// ghost assignments performed at return
+	for ri := range fr.rets {
+		r := &fr.rets[ri]
+		for _, gs := range c.GhostSets {
+			gv, ok := p.CS.GhostVars[gs.Name]
+			if !ok {
+				res.Errors = append(res.Errors, "ghostset: unknown ghost var "+gs.Name)
+				continue
+			}
+			renv := &SpecEnv{fr: fr, heap: r.heap, old: vc.root, block: r.block, idx: 1 << 30, bound: map[string]*Val{}, names: map[string]*Val{}, entryParams: true}
+			var rv *Val
+			switch len(r.vals) {
+			case 0:
+				rv = &Val{T: "0"}
+			case 1:
+				rv = r.vals[0]
+			default:
+				rv = &Val{Tup: r.vals, Typ: fn.Signature.Results()}
+			}
+			renv.bindResults(fn, nil, rv)
+			nv := vc.term(renv.eval(gs.Cl.E))
+			nh := r.heap.Derive()
+			nh.Set(vc.ghostVarHeap(gv), nv)
+			r.heap = nh
+		}
+	}
 	// postconditions
 	for k, en := range c.Ensures {
 		var goals []Goal
